@@ -73,8 +73,30 @@ func GetCPUPlans(resourceInfo *types.NodeResourceInfo, originCPUMap types.CPUMap
 		numaCPUMap[numaNodeID][cpuID] = availableResource.CPUMap[cpuID]
 	}
 
+	// visit the numa nodes in a fixed order, the ones holding the origin cores first:
+	// the caller takes the first plan, which has to keep a workload where it is when it can stay
+	numaNodeIDs := make([]string, 0, len(numaCPUMap))
+	for numaNodeID := range numaCPUMap {
+		numaNodeIDs = append(numaNodeIDs, numaNodeID)
+	}
+	holdsOrigin := func(numaNodeID string) bool {
+		for cpuID := range originCPUMap {
+			if _, ok := numaCPUMap[numaNodeID][cpuID]; ok {
+				return true
+			}
+		}
+		return false
+	}
+	sort.Slice(numaNodeIDs, func(i, j int) bool {
+		if oi, oj := holdsOrigin(numaNodeIDs[i]), holdsOrigin(numaNodeIDs[j]); oi != oj {
+			return oi
+		}
+		return numaNodeIDs[i] < numaNodeIDs[j]
+	})
+
 	// get cpu plan for each numa node
-	for numaNodeID, cpuMap := range numaCPUMap {
+	for _, numaNodeID := range numaNodeIDs {
+		cpuMap := numaCPUMap[numaNodeID]
 		numaCPUPlans := doGetCPUPlans(originCPUMap, cpuMap, availableResource.NUMAMemory[numaNodeID], shareBase, maxFragmentCores, req.CPURequest, req.MemRequest)
 		for _, workloadCPUMap := range numaCPUPlans {
 			cpuPlans = append(cpuPlans, &types.CPUPlan{
